@@ -9,17 +9,19 @@ Fixpoint cnf (e : expr) : Prop :=
   | EDot t _ => cnf t
   | EUn _ v => cnf v
   | EBin o l r => cnf l /\ cnf r /\ (o = BComma -> not_comma r)
+  | ECond c y n => cnf c /\ cnf y /\ cnf n
+  | EIndex t i => cnf t /\ cnf i
   | _ => True
   end.
 
 Lemma not_comma_norm r : not_comma r -> not_comma (norm r).
 Proof.
-  destruct r as [s|s|b f|t s|u v|o a b]; simpl; auto.
+  destruct r as [s|s|b f|t s|u v|o a b|c0 y0 n0|t0 i0]; simpl; auto.
   destruct (op_eqb o BComma) eqn:E; [destruct o; try discriminate; intros []|].
   intros _. destruct o; try discriminate; exact I.
 Qed.
 Lemma comma_app_plain l r : not_comma r -> comma_app l r = EBin BComma l r.
-Proof. destruct r as [s|s|b f|t s|u v|o a b]; simpl; auto. destruct o; auto. intros []. Qed.
+Proof. destruct r as [s|s|b f|t s|u v|o a b|c0 y0 n0|t0 i0]; simpl; auto. destruct o; auto. intros []. Qed.
 Lemma norm_bin o l r : (o = BComma -> not_comma r) -> norm (EBin o l r) = EBin o (norm l) (norm r).
 Proof.
   intro H. simpl. destruct (op_eqb o BComma) eqn:E; [|reflexivity].
@@ -48,7 +50,7 @@ Proof.
     pose proof (compound_lvl e Hc) as Hl.
     apply (U 0 0); try lia.
     + unfold S_Update. lia.
-    + destruct e; simpl; auto. right. pose proof (op_level_pos o). lia.
+    + destruct e; simpl; auto; right; [pose proof (op_level_pos o); lia | unfold LConditional, LYield; lia].
     + reflexivity.
     + apply S_stop. reflexivity.
   - unfold wrapped in W. rewrite Hc in W. simpl in W. rewrite Z.geb_leb in W. apply Z.leb_gt in W.
@@ -62,12 +64,54 @@ Proof. destruct o; intro H; try discriminate; split; reflexivity. Qed.
 Lemma bin_level o : op_kind o = KBin -> op_level o <= 17 /\ right_level o <= 17 /\ 0 <= lpl o.
 Proof. destruct o; intro H; try discriminate; vm_compute; repeat split; discriminate. Qed.
 
+Lemma fol_bin o P r : op_kind o = KBin -> fol P (op_tok o :: r) = (lpl o <=? P).
+Proof. destruct o; intro H; try discriminate; reflexivity. Qed.
+Lemma fol_post o P r : op_kind o = KPost -> fol P (op_tok o :: r) = (LPrefix <=? P).
+Proof. destruct o; intro H; try discriminate; reflexivity. Qed.
+Lemma low_ops_stop o : op_kind o = KBin -> lpl o <= LYield -> spec_level o <=? 3 = true.
+Proof. destruct o; intro H; try discriminate; vm_compute; intro H2; try reflexivity; exfalso; apply H2; reflexivity. Qed.
+
 Lemma target_shape v : is_target v = true -> compound v = false /\ lvl v = S_Member.
 Proof. destruct v; simpl; intro H; try discriminate; split; reflexivity. Qed.
 
+Lemma wrapped19 t : compound t = true -> wrapped LPostfix t = true.
+Proof.
+  intro Hc. unfold wrapped. rewrite Hc. simpl. rewrite Z.geb_leb. apply Z.leb_le.
+  destruct t as [| | | |u w|o2 a b2|c0 y0 n0|]; try discriminate; simpl;
+    [pose proof (op_level_pos u) | pose proof (op_level_pos o2)]; unfold LPostfix; lia.
+Qed.
+Lemma target19 L t : lv_ok L LPostfix t /\ S_Member <=? ll_of LPostfix t = true.
+Proof.
+  destruct (compound t) eqn:Ec.
+  - pose proof (wrapped19 t Ec) as W. split.
+    + destruct t; simpl; auto.
+    + unfold ll_of. rewrite W. reflexivity.
+  - split; [destruct t; try discriminate; exact I|].
+    unfold ll_of, wrapped. rewrite Ec. simpl. rewrite (lvl_atom t Ec). reflexivity.
+Qed.
+Lemma operand17 L t : wf t -> lv_ok L (LPrefix - 1) t.
+Proof.
+  intro Hw. destruct t as [| | | |u w|o2 a b2|c0 y0 n0|]; simpl; auto; left; unfold wrapped; simpl; rewrite Z.geb_leb; apply Z.leb_le.
+  destruct Hw as (_ & _ & Hk & _). destruct (bin_level o2 Hk) as (Hle & _). unfold LPrefix. lia.
+Qed.
+Lemma lv_ok_low e : lv_ok 0 0 e /\ lv_ok 3 LYield e.
+Proof.
+  destruct e as [| | | |u w|o2 a b2|c0 y0 n0|]; simpl; auto; split.
+  - right. pose proof (op_level_pos o2). lia.
+  - destruct (LYield >=? op_level o2) eqn:E; [left; unfold wrapped; simpl; exact E|]. right.
+    rewrite Z.geb_leb in E. apply Z.leb_gt in E. unfold LYield in E. lia.
+  - right. unfold LConditional, LYield. lia.
+  - right. unfold LConditional, LYield. lia.
+Qed.
+
+Lemma colon_stop M r : head_stop M (TP [58] :: r) = true /\ fol LYield (TP [58] :: r) = true.
+Proof. split; reflexivity. Qed.
+Lemma rbrack_stop M r : head_stop M (TP [93] :: r) = true /\ fol 0 (TP [93] :: r) = true.
+Proof. split; reflexivity. Qed.
+
 Theorem print_parse_gen : forall e, wf e -> cnf e -> Gen e.
 Proof.
-  induction e as [s|s|b f|t IHt s|o v IHv|o l IHl r IHr]; intros Hwf Hcn.
+  induction e as [s|s|b f|t IHt s|o v IHv|o l IHl r IHr|c IHc y IHy n IHn|t IHt i IHi]; intros Hwf Hcn.
   - (* identifier *)
     intros P L rest res HP HL Hlv Hf Hs. simpl in *. destruct Hwf as [_ Hr].
     apply (E_atom L (TId s) rest (EId s)); [apply find_op_word; exact Hr | simpl; rewrite Hr; reflexivity | exact Hs].
@@ -78,21 +122,11 @@ Proof.
   - (* member access *)
     intros P L rest res HP HL Hlv Hf Hs. destruct Hwf as (Hwt & Hs1 & Hs2). simpl in Hcn.
     cbn [print_items]. rewrite toks_app, <- app_assoc. change (toks [IDot s]) with [TP [46]; TId s]. simpl app.
+    destruct (target19 L t) as [Hlt Hll].
     apply (IHt Hwt Hcn LPostfix L); try assumption.
     + unfold LPostfix. lia.
-    + destruct t; simpl; auto. left. unfold wrapped. simpl. destruct Hwt as (_ & _ & Hk & _).
-      destruct (bin_level o Hk) as (Hle & _). rewrite Z.geb_leb. apply Z.leb_le. unfold LPostfix. lia.
     + reflexivity.
-    + apply S_dot; [reflexivity| |exact Hs].
-      apply Z.leb_le. unfold ll_of. destruct (wrapped LPostfix t) eqn:W; [unfold S_Member; lia|].
-      unfold wrapped in W. destruct (compound t) eqn:Ec; [|rewrite (lvl_atom t Ec); unfold S_Member; lia].
-      simpl in W. rewrite Z.geb_leb in W. apply Z.leb_gt in W.
-      destruct t as [| | | |u w|o2 a b2]; try discriminate; simpl in W |- *.
-      * destruct Hwt as (_ & Hku & _). destruct (op_kind u) eqn:Eu.
-        -- rewrite (pre_level u Eu) in W. unfold LPostfix, S_Unary in W. lia.
-        -- destruct (post_level u Eu) as [E _]. rewrite E in W. unfold LPostfix, S_Update in W. lia.
-        -- congruence.
-      * destruct Hwt as (_ & _ & Hk & _). destruct (bin_level o2 Hk) as (Hle & _). unfold LPostfix in W. lia.
+    + apply S_dot; [reflexivity | exact Hll | exact Hs].
   - (* unary *)
     apply gen_of_unw; [reflexivity|].
     intros P L rest res HP HPl HL Hlv Hf Hs. destruct Hwf as (Hwv & Hku & Hupd). simpl in Hcn.
@@ -103,10 +137,9 @@ Proof.
       rewrite toks_app, <- app_assoc. change (toks [IOp o]) with (toks_of (IOp o) ++ []). rewrite T2. simpl app.
       apply (E_prefix L (op_tok o) _ o (norm v) rest res T1); [| |exact Hs].
       * apply (IHv Hwv Hcn (LPrefix - 1) S_Unary); try (unfold LPrefix, S_Unary, S_Update; lia).
-        -- destruct v; simpl; auto. left. unfold wrapped. simpl. destruct Hwv as (_ & _ & Hk & _).
-           destruct (bin_level o0 Hk) as (Hle & _). rewrite Z.geb_leb. apply Z.leb_le. unfold LPrefix. lia.
+        -- apply operand17. exact Hwv.
         -- apply (fol_weaken P); [unfold LPrefix, S_Unary in *; lia | exact Hf].
-        -- apply S_stop. apply (fol_stop P); [exact Hf | unfold LPrefix, S_Unary in *; lia|].
+        -- apply S_stop. apply (fol_stop P); [exact Hf | unfold LPrefix, S_Unary in *; lia | unfold S_Unary in *; lia|].
            intros o' Hk' _. apply Z.leb_le. rewrite spec_level_is_op_level. destruct (bin_level o' Hk'). unfold S_Unary. lia.
       * destruct (is_update o) eqn:Eu; [|reflexivity]. simpl. rewrite is_target_norm. auto.
     + (* postfix *)
@@ -116,7 +149,7 @@ Proof.
       apply (IHv Hwv Hcn (LPostfix - 1) L); try assumption.
       * unfold LPostfix. lia.
       * destruct v; simpl in *; auto; discriminate.
-      * simpl. rewrite T1, T2. reflexivity.
+      * rewrite (fol_post o _ _ Ek). reflexivity.
       * apply (S_post L (norm v) _ (op_tok o) o rest res T1 T2); [apply Z.leb_gt; exact HL| |exact Hs].
         rewrite is_target_norm, Hupd. unfold ll_of, wrapped. rewrite Hcv. simpl. rewrite Hlv'. reflexivity.
     + congruence.
@@ -130,19 +163,67 @@ Proof.
     rewrite !toks_app, <- !app_assoc. change (toks [IOp o]) with (toks_of (IOp o) ++ []). rewrite T4. simpl app.
     pose proof (left_lvl_ge o l) as Hll. pose proof (right_lvl_ge o r Hk) as Hrl.
     apply (IHl Hwl Hcl (left_lvl o l) L); try assumption; try lia.
-    + destruct l as [| | | | |o2 a b2]; simpl; auto.
-      unfold wrapped. simpl. destruct (left_lvl o (EBin o2 a b2) >=? op_level o2) eqn:E; [left; reflexivity|].
-      right. rewrite Z.geb_leb in E. apply Z.leb_gt in E. unfold lpl in Hll. destruct (is_right_assoc o); lia.
-    + simpl. rewrite T1, T2, T3. apply Z.leb_le. exact Hll.
+    + destruct l as [| | | | |o2 a b2|c0 y0 n0|]; simpl; auto.
+      * unfold wrapped. simpl. destruct (left_lvl o (EBin o2 a b2) >=? op_level o2) eqn:E; [left; reflexivity|].
+        right. rewrite Z.geb_leb in E. apply Z.leb_gt in E. unfold lpl in Hll. destruct (is_right_assoc o); lia.
+      * (* a conditional as left operand: parenthesised except under a comma *)
+        unfold wrapped. simpl. destruct (left_lvl o (ECond c0 y0 n0) >=? LConditional) eqn:E; [left; reflexivity|].
+        right. rewrite Z.geb_leb in E. apply Z.leb_gt in E.
+        destruct (is_assign o) eqn:Ea; [specialize (Hta eq_refl); discriminate|].
+        assert (Hlow : (left_lvl o (ECond c0 y0 n0) = 0 /\ op_level o = 1) \/ LConditional <= left_lvl o (ECond c0 y0 n0)).
+        { clear -Hk Ea. destruct o; try discriminate; vm_compute; auto; right; discriminate. }
+        unfold LConditional, LYield in *. destruct Hlow as [[Hlow Hl1]|Hlow]; lia.
+    + rewrite (fol_bin o _ _ Hk). apply Z.leb_le. exact Hll.
     + apply (S_bin L (norm l) _ (op_tok o) o _ (norm r) rest res T1 T2 T3).
       * rewrite spec_level_is_op_level. apply Z.leb_gt. exact HLo.
       * apply left_ok_print; assumption.
       * apply (IHr Hwr Hcr (right_lvl o r) (right_level o)); try (unfold S_Update; lia).
         -- apply right_ok_print; assumption.
         -- apply (fol_weaken P); [lia | exact Hf].
-        -- apply S_stop. apply (fol_stop P); [exact Hf | unfold LPrefix; lia|].
-           intros o' Hk' Hl'. apply (stop_level o o' P); assumption.
+        -- apply S_stop. apply (fol_stop P); [exact Hf | unfold LPrefix; lia | |].
+           ++ assert (Hrg : op_level o - 1 <= right_level o) by (clear -Hk; destruct o; try discriminate; vm_compute; discriminate). lia.
+           ++ intros o' Hk' Hl'. apply (stop_level o o' P); assumption.
       * rewrite spec_level_is_op_level. exact Hs.
+  - (* conditional *)
+    apply gen_of_unw; [reflexivity|].
+    intros P L rest res HP HPl HL Hlv Hf Hs. destruct Hwf as (Hwc & Hwy & Hwn). destruct Hcn as (Hcc & Hcy & Hcn).
+    rewrite body_cond. simpl lvl in *. simpl norm in Hs.
+    assert (HL5 : L < LConditional /\ P <= LYield).
+    { destruct Hlv as [W|W]; [|exact W]. unfold wrapped in W. simpl in W. rewrite Z.geb_leb in W. apply Z.leb_le in W. lia. }
+    destruct HL5 as [HL5 HP3].
+    rewrite !toks_app, <- !app_assoc. change (toks [IQuest]) with [TP [63]]. change (toks [IColon]) with [TP [58]]. simpl app.
+    apply (IHc Hwc Hcc LConditional L); try assumption.
+    + unfold LConditional. lia.
+    + destruct c as [| | | | |o2 a b2|c0 y0 n0|]; simpl; auto.
+      * unfold wrapped. simpl. destruct (LConditional >=? op_level o2) eqn:E; [left; reflexivity|].
+        right. rewrite Z.geb_leb in E. apply Z.leb_gt in E. lia.
+    + reflexivity.
+    + destruct (colon_stop 3 (toks (print_items LYield n) ++ rest)) as [Cs Cf].
+      destruct (lv_ok_low y) as [_ Ly]. destruct (lv_ok_low n) as [_ Ln].
+      apply (S_cond L (norm c) _ (TP [63]) _ (norm y) (TP [58]) (toks (print_items LYield n) ++ rest) (norm n) rest res);
+        try reflexivity.
+      * apply Z.leb_gt. unfold S_Cond, LConditional in *. lia.
+      * apply Z.ltb_lt. unfold ll_of. destruct (wrapped LConditional c) eqn:W; [reflexivity|].
+        unfold wrapped in W. destruct (compound c) eqn:Ec; [|rewrite (lvl_atom c Ec); reflexivity].
+        simpl in W. rewrite Z.geb_leb in W. apply Z.leb_gt in W. unfold S_Cond, LConditional in *. lia.
+      * apply (IHy Hwy Hcy LYield 3); try assumption; try (unfold LYield, S_Update; lia).
+        apply S_stop. exact Cs.
+      * apply (IHn Hwn Hcn LYield 3); try assumption; try (unfold LYield, S_Update; lia).
+        -- apply (fol_weaken P); [exact HP3 | exact Hf].
+        -- apply S_stop. apply (fol_stop P); [exact Hf | unfold LPrefix, LYield in *; lia | unfold LYield in *; lia|].
+           intros o' Hk' Hl'. apply low_ops_stop; [exact Hk' | lia].
+      * exact Hs.
+  - (* index access *)
+    intros P L rest res HP HL Hlv Hf Hs. destruct Hwf as (Hwt & Hwi). destruct Hcn as (Hct & Hci).
+    cbn [print_items]. rewrite !toks_app, <- !app_assoc. change (toks [ILBrack]) with [TP [91]]. change (toks [IRBrack]) with [TP [93]]. simpl app.
+    destruct (target19 L t) as [Hlt Hll].
+    apply (IHt Hwt Hct LPostfix L); try assumption.
+    + unfold LPostfix. lia.
+    + reflexivity.
+    + destruct (rbrack_stop 0 rest) as [Rs Rf]. destruct (lv_ok_low i) as [Li _].
+      apply (S_index L (norm t) _ (TP [91]) _ (norm i) (TP [93]) rest res); try reflexivity; try assumption.
+      apply (IHi Hwi Hci 0 0); try assumption; try (unfold S_Update; lia).
+      apply S_stop. exact Rs.
 Qed.
 
 (* ---- whole expressions ---- *)
@@ -159,7 +240,7 @@ Proof.
   destruct (print_parse_gen e Hwf Hcn LLowest 0 [] (norm e, [])) as [n Hn].
   - unfold LLowest. lia.
   - unfold S_Update. lia.
-  - destruct e; simpl; auto. right. pose proof (op_level_pos o). lia.
+  - apply lv_ok_low.
   - reflexivity.
   - apply S_nil.
   - exists n. intros m Hm. rewrite app_nil_r in Hn. unfold parse_fuel.
